@@ -375,6 +375,23 @@ def rule_p(ck, prog, mg, gs):
                 al = op_local(c.call["args"][0])
                 if al is not None and (al == rl or rl in g.ref_of.get(al, ())):
                     sites.append((gd.block, T))
+            # the same decision made by a helper the reader is handed to (`ensure_fully_consumed(&reader)?`)
+            rl = t["dest"]["l"]
+            for cb, ct in f.calls():
+                cands, _pr = prog.resolve_call(ct)
+                cands = [c for c in cands if c.crate != "examples"]
+                if len(cands) != 1:
+                    continue
+                idxs = [k for k, a in enumerate(ct["args"]) if op_local(a) is not None and
+                        (op_local(a) == rl or rl in g.ref_of.get(op_local(a), ()))]
+                if not idxs:
+                    continue
+                h = cands[0]
+                if not _helper_rejects_leftover(h, [k + 1 for k in idxs]):
+                    continue
+                from ..guards import err_propagated
+                if err_propagated(prog, f, cb, acc)[0]:
+                    sites.append((cb, T))
             ok = False
             if sites:
                 ok, _ = must_between(f, [(b, T)], sites, acc)
@@ -384,7 +401,7 @@ def rule_p(ck, prog, mg, gs):
     ck.floor("sub-parser readers over proof byte fields", n, 7)
     # Table::from_bytes has no trailing-byte decision of its own: its caller must pin the length exactly
     q = prog.fn("winter_air::proof::queries::Queries::parse")
-    gq = [g for g in mg.of(q) if g.fn is q and g.kind == "switch" and "InvalidValue" in g.errs
+    gq = [g for g in mg.of(q) if g.kind == "switch" and "InvalidValue" in g.errs
           and match_cmp(g, ("!=",), has_field("Queries", "values"), all_of(has_param("num_queries"), has_param("values_per_query")))]
     require(ck, "P", "Queries::parse:exact-length", gq,
             "Queries::parse rejects iff values.len() != num_queries * values_per_query * ELEMENT_BYTES (exact, not a lower bound), "
@@ -394,6 +411,23 @@ def rule_p(ck, prog, mg, gs):
     ck.ob("P", "Table::from_bytes:callers", {c.nname for c in callers} <= {q.nname},
           "Table::from_bytes (which does not check for trailing bytes) is only called from Queries::parse, behind the exact-length decision",
           loc=tb.loc(), detail=str(sorted(c.nname for c in callers)))
+
+
+def _helper_rejects_leftover(h, params):
+    """every accepting path of helper h passes `has_more_bytes()` on one of the given parameters with the true edge rejecting"""
+    acc = accept_nodes(h)
+    gh = flow(h)
+    sites = []
+    for gd in local_guards(h, okset=set(acc)):
+        c = gd.cond
+        if c.kind != "call" or not (callee_name(c.call) or "").endswith("ByteReader::has_more_bytes") or c.neg:
+            continue
+        if not any(e.variant == "UnconsumedBytes" for e in gd.errs):
+            continue
+        al = op_local(c.call["args"][0])
+        if al in params or (set(gh.ref_of.get(al, ())) & set(params)):
+            sites.append((gd.block, T))
+    return bool(sites) and must_between(h, None, sites, acc)[0]
 
 
 def controls(ck, prog):
